@@ -522,4 +522,209 @@ theorem serializeStart_eq (plus : Bool) (a : Annotation) :
   unfold serializeStart optSection
   cases a.unknown <;> cases a.nterm <;> simp
 
+/-! ### integers -/
+
+theorem digitsUS_digits (prev : Bool) (ds : List Char) (hd : ∀ x ∈ ds, x.isDigit = true) :
+    digitsUS prev ds = (ds, []) := by
+  induction ds generalizing prev with
+  | nil => rfl
+  | cons c t ih =>
+    simp only [digitsUS, hd c (by simp), ↓reduceIte]
+    rw [ih true (fun x hx => hd x (by simp [hx]))]
+
+theorem isDigit_not_space (c : Char) (h : c.isDigit = true) : isPySpace c = false := by
+  rw [isDigit_toNat] at h
+  simp only [isPySpace, Bool.or_eq_false_iff, Bool.and_eq_false_imp, decide_eq_true_eq, decide_eq_false_iff_not]
+  omega
+
+theorem dropWhile_head_false {α} (p : α → Bool) (l : List α) (h : ∀ x, l.head? = some x → p x = false) :
+    l.dropWhile p = l := by
+  cases l with
+  | nil => rfl
+  | cons a t => simp [List.dropWhile, h a rfl]
+
+/-- nothing to strip when the first and the last character are not white space -/
+theorem pyStrip_id (l : List Char) (h1 : ∀ x, l.head? = some x → isPySpace x = false)
+    (h2 : ∀ x, l.getLast? = some x → isPySpace x = false) : pyStrip l = l := by
+  unfold pyStrip
+  rw [dropWhile_head_false _ _ h1, dropWhile_head_false _ l.reverse (by simpa using h2), List.reverse_reverse]
+
+theorem natText_head_digit (n : Nat) : ∀ x, (natText n).head? = some x → x.isDigit = true := by
+  intro x hx
+  exact natText_digits n x (List.mem_of_mem_head? hx)
+
+theorem natText_last_digit (n : Nat) : ∀ x, (natText n).getLast? = some x → x.isDigit = true := by
+  intro x hx
+  exact natText_digits n x (List.mem_of_getLast? hx)
+
+theorem pyInt_natText (n : Nat) : pyInt? (natText n) = some (Int.ofNat n) := by
+  unfold pyInt?
+  have hs : pyStrip (natText n) = natText n :=
+    pyStrip_id _ (fun x hx => isDigit_not_space x (natText_head_digit n x hx))
+      (fun x hx => isDigit_not_space x (natText_last_digit n x hx))
+  rw [hs]
+  have hsg : splitSign (natText n) = (false, natText n) := by
+    cases hnt : natText n with
+    | nil => exact absurd hnt (natText_ne_nil n)
+    | cons c t =>
+      have hc : c.isDigit = true := natText_head_digit n c (by simp [hnt])
+      unfold splitSign
+      split
+      · rename_i heq; cases heq; exact absurd hc (by decide)
+      · rename_i heq; cases heq; exact absurd hc (by decide)
+      · rfl
+  simp only [hsg, digitsUS_digits false _ (natText_digits n), natText_value]
+  simp [natText_ne_nil]
+
+theorem pyInt_intText (i : Int) : pyInt? (intText i) = some i := by
+  unfold intText
+  split
+  · rename_i hneg
+    unfold pyInt?
+    have hs : pyStrip ('-' :: natText i.natAbs) = '-' :: natText i.natAbs := by
+      apply pyStrip_id
+      · intro x hx; simp at hx; subst hx; decide
+      · intro x hx
+        rw [List.getLast?_cons_of_ne_nil (natText_ne_nil _)] at hx
+        exact isDigit_not_space x (natText_last_digit _ x hx)
+    rw [hs]
+    simp only [splitSign, digitsUS_digits false _ (natText_digits _), natText_value]
+    simp [natText_ne_nil]
+    omega
+  · rename_i hnn
+    rw [pyInt_natText]
+    simp only [Int.ofNat_eq_natCast, Option.some.injEq]
+    omega
+
+/-- every Python `int` is a canonical modification value: `convert_type(str(i)) == i` -/
+theorem convertType_intText (i : Int) : convertType (intText i) = .int i := by
+  simp [convertType, pyInt_intText]
+
+/-! ### `_parse_integer` and the end section -/
+
+theorem intSpan_digits (n : Nat) (ds r : List Char) (hd : ∀ x ∈ ds, x.isDigit = true) :
+    intSpan n (ds ++ r) = (ds ++ (intSpan (n + ds.length) r).1, (intSpan (n + ds.length) r).2) := by
+  induction ds generalizing n with
+  | nil => simp
+  | cons c t ih =>
+    simp only [List.cons_append, intSpan, hd c (by simp), ↓reduceIte]
+    rw [ih (n + 1) (fun x hx => hd x (by simp [hx]))]
+    simp only [List.length_cons]
+    have : n + 1 + t.length = n + (t.length + 1) := by omega
+    rw [this]
+
+theorem intSpan_stop (n : Nat) (r : List Char) (hn : n ≠ 0) (hr : ∀ x, r.head? = some x → x.isDigit = false) :
+    intSpan n r = ([], r) := by
+  cases r with
+  | nil => rfl
+  | cons c t => simp [intSpan, hr c rfl, hn]
+
+/-- what may follow the charge digits -/
+def IntStop (r : List Char) : Prop := ∀ x, r.head? = some x → x.isDigit = false
+
+theorem parseInteger_intText (ch : Int) (r : List Char) (hr : IntStop r) :
+    parseInteger (intText ch ++ r) = .ok (ch, r) := by
+  have hspan : intSpan 0 (intText ch ++ r) = (intText ch, r) := by
+    unfold intText
+    split
+    · simp only [List.cons_append, intSpan]
+      have h1 : ('-' : Char).isDigit = false := by decide
+      simp only [h1, Bool.false_eq_true, ↓reduceIte, or_true, and_self]
+      rw [intSpan_digits 0 _ r (natText_digits _),
+        intSpan_stop _ r (by have := natText_ne_nil ch.natAbs; cases h : natText ch.natAbs <;> simp_all) hr]
+      simp
+    · rw [intSpan_digits 0 _ r (natText_digits _),
+        intSpan_stop _ r (by have := natText_ne_nil ch.natAbs; cases h : natText ch.natAbs <;> simp_all) hr]
+      simp
+  unfold parseInteger
+  rw [hspan]
+  simp [pyInt_intText]
+
+/-- what follows a chain: the end of the input or the `+` that starts the next chain -/
+def ChainStop (r : List Char) : Prop := r = [] ∨ ∃ t, r = '+' :: t
+
+theorem ChainStop.modStop {r : List Char} (h : ChainStop r) : ModStop r := by
+  rcases h with h | ⟨t, h⟩ <;> subst h
+  · exact ModStop.nil
+  · exact ModStop.cons (by decide) (by decide)
+
+theorem ChainStop.head_ne {r : List Char} (h : ChainStop r) (x : Char) (hx : x ≠ '+') : r.head? ≠ some x := by
+  rcases h with h | ⟨t, h⟩ <;> subst h <;> simp
+  exact fun h => hx h.symm
+
+theorem intText_head (ch : Int) : ∀ x, (intText ch).head? = some x → x ≠ '/' := by
+  intro x hx
+  unfold intText at hx
+  split at hx
+  · simp at hx; subst hx; decide
+  · have := natText_head_digit _ x hx
+    intro h; subst h; exact absurd this (by decide)
+
+theorem intText_ne_nil (ch : Int) : intText ch ≠ [] := by
+  unfold intText; split
+  · simp
+  · exact natText_ne_nil _
+
+theorem parseEnd_stop (a : Annotation) (conn : Option Bool) (r : List Char) (h : ChainStop r) :
+    parseEnd a conn r = .ok (a, (if r = [] then conn else some false), r.tail) := by
+  rcases h with h | ⟨t, h⟩ <;> subst h
+  · rw [parseEnd.eq_def]; simp
+  · rw [parseEnd.eq_def]; simp
+
+/-- **charge and adducts**: `/z[adduct]…` is read back by `_parse_sequence_end` -/
+theorem parseEnd_charge (plus : Bool) (a : Annotation) (ha0 : a.adducts = none)
+    (conn : Option Bool) (ch : Int) (ad : Option (List Mod)) (had : canonAdducts (some ch) ad = true)
+    (rest : List Char) (hrest : ChainStop rest) :
+    parseEnd a conn ('/' :: (intText ch ++ (optMods '[' ']' plus ad ++ rest))) =
+      parseEnd { a with charge := some ch, adducts := ad } conn rest := by
+  rw [parseEnd.eq_def]
+  simp only [↓reduceIte]
+  have hh : (intText ch ++ (optMods '[' ']' plus ad ++ rest)).head? ≠ some '/' := by
+    cases hit : intText ch with
+    | nil => exact absurd hit (intText_ne_nil ch)
+    | cons c t =>
+      simp only [List.cons_append, List.head?_cons, ne_eq, Option.some.injEq]
+      exact intText_head ch c (by simp [hit])
+  rw [if_neg hh]
+  have hstop : IntStop (optMods '[' ']' plus ad ++ rest) := by
+    intro x hx
+    exact ((optMods_modStop '[' ']' (by decide) (by decide) plus ad rest hrest.modStop) x hx).2
+  have hpi := parseInteger_intText ch _ hstop
+  split
+  · rename_i e he; rw [hpi] at he; cases he
+  · rename_i ch' rest' hb
+    rw [hpi] at hb; cases hb
+    cases ad with
+    | none =>
+      have : (optMods '[' ']' plus none ++ rest).head? ≠ some '[' := by
+        simpa [optMods] using hrest.head_ne '[' (by decide)
+      rw [if_neg this]
+      simp [optMods, ha0]
+    | some l =>
+      simp only [canonAdducts, Option.isSome_some, Bool.true_and, Bool.and_eq_true, Bool.not_eq_eq_eq_not,
+        Bool.not_true, List.all_eq_true, decide_eq_true_eq] at had
+      obtain ⟨hne, hall⟩ := had
+      have hne' : l ≠ [] := by intro h; subst h; simp at hne
+      have hcan : l.all (canonMod '[' ']') = true := by
+        rw [List.all_eq_true]; intro m hm
+        have := hall m hm
+        simp only [canonMod, Bool.and_eq_true, decide_eq_true_eq]
+        exact ⟨by omega, this.2⟩
+      have hhead : (optMods '[' ']' plus (some l) ++ rest).head? = some '[' := by
+        cases l with
+        | nil => exact absurd rfl hne'
+        | cons m t => exact serializeMods_head _ _ _ _ _ _
+      rw [if_pos hhead]
+      have hpm := parseMods_serialize '[' ']' (by decide) (by decide) (by decide) (by decide) (by decide) plus l hcan
+        rest hrest.modStop (hrest.head_ne '[' (by decide))
+      split
+      · rename_i e he
+        rw [show optMods '[' ']' plus (some l) = serializeMods '[' ']' plus l from rfl, hpm] at he; cases he
+      · rename_i ms rest'' hb
+        rw [show optMods '[' ']' plus (some l) = serializeMods '[' ']' plus l from rfl, hpm] at hb; cases hb
+        have hany : (l.any fun m => decide (m.mult > 1)) = false := by
+          rw [List.any_eq_false]; intro m hm
+          have := (hall m hm).1
+          simp; omega
+        simp [hany, addMods, ha0]
 end Pept
